@@ -13,6 +13,7 @@ import (
 	"strings"
 
 	"github.com/osteele/liquid"
+	"github.com/osteele/liquid/expressions"
 	"github.com/osteele/liquid/render"
 	"verif.local/simrt"
 )
@@ -95,6 +96,21 @@ func NewEngine(c EngCfg) *liquid.Engine {
 		name := strings.TrimSpace(ctx.TagArgs())
 		ctx.Bindings()["bset_"+name] = "<" + name + ">"
 		return "", nil
+	})
+	// hwhere: a filter with an expressions.Closure parameter (the where_exp mechanism):
+	// keeps the elements for which the expression, with the element bound to name, is truthy
+	e.RegisterFilter("hwhere", func(a []any, name string, expr expressions.Closure) ([]any, error) {
+		var out []any
+		for _, item := range a {
+			v, err := expr.Bind(name, item).Evaluate()
+			if err != nil {
+				return nil, err
+			}
+			if v != nil && v != false {
+				out = append(out, item)
+			}
+		}
+		return out, nil
 	})
 	e.RegisterTag("expand", func(ctx render.Context) (string, error) {
 		s, err := ctx.ExpandTagArg()
@@ -246,7 +262,14 @@ type Parsed struct {
 // scribble overwrites a byte slice the harness handed to the library: once a call
 // has returned, the caller may reuse its buffer, so nothing the library keeps (the
 // parsed template, an error it returned) may alias it.
+// noScribble: reference executions (alone baselines, isolated expectations) leave the
+// buffer alone, so that a library that aliases it disagrees with its own reference.
+var noScribble bool
+
 func scribble(b []byte) {
+	if noScribble {
+		return
+	}
 	for i := range b {
 		b[i] = '#'
 	}
